@@ -1,6 +1,7 @@
 import BpModel.All
 import BpProofs.RtFlat
 import BpProofs.RtMain
+import BpProofs.Encodable
 import BpProofs.Props.C06
 /-
   C01 — binary round trip: parse(bytes(m)) reproduces m for every message value.
@@ -44,10 +45,16 @@ import BpProofs.Props.C06
       identifies exactly three things Python's `==` identifies too: `-0.0` with `+0.0`
       inside a wrapper (the wrapper class has implicit presence), and a map VALUE message
       that encodes to nothing with the fresh instance of its class.
-  MISSING (named, not proved): repeated wrapper fields; that every `MsgOk` value CAN be
-    encoded (`dumpVal` succeeds — the theorem takes the encoding as a hypothesis; for scalars
-    this is `scalar_encodable`). Those are covered by the differential correspondence and the
-    oracle of this check.
+    * encodability (`encodable`, BpProofs/Encodable.lean): EVERY `MsgOk` value can be encoded —
+      `dumpVal` returns `.ok`, unconditionally (no side condition, no counterexample: no
+      branch of the encoder fails on a well-typed slot, whatever `hid` / `sel`; an unset slot
+      of any field whatsoever is fine because `dumpDefault` is total). By structural
+      recursion on the value, with companions for `dumpSlots`, `dumpSlot`, `dumpItems`,
+      `dumpEntries`. Hence `roundtrip_total_partial`: the round trip with NO encoding
+      hypothesis — the only premise left besides `MsgOk` is that the encoding is shorter than
+      2^64 bytes (a length the decoder's 64-bit length prefixes can express).
+  MISSING (named, not proved): repeated wrapper fields (outside `MsgOk`). Covered by the
+    differential correspondence and the oracle of this check.
 -/
 namespace Bp.C01
 open Bp Gen
@@ -217,6 +224,22 @@ theorem roundtrip_nested_partial (S : Schema) (c : Nat) (d : MsgD) (hd : S[c]? =
   rw [e, h1]
   rfl
 
+/-- **every well-typed message value can be encoded**: `bytes(m)` raises nothing on the
+    domain `MsgOk` of the round-trip theorem (BpProofs/Encodable.lean) -/
+theorem encodable (S : Schema) (m : Val) (h : MsgOk S m) : ∃ bs, dumpVal S m = .ok bs :=
+  msgOk_encodable S m h
+
+/-- … so the round trip needs no encoding hypothesis beyond the 2^64-byte length bound:
+    the encoding exists, and if it is shorter than 2^64 bytes it parses back to an
+    equivalent value with the same encoding -/
+theorem roundtrip_total_partial (S : Schema) (c : Nat) (d : MsgD) (hd : S[c]? = some d)
+    (sl : List Val) (ow : Bool) (unk : Bytes) (cur : List (Option Nat)) (hm : MsgOk S (.msg c sl ow unk cur)) :
+    ∃ bs, dumpVal S (.msg c sl ow unk cur) = .ok bs ∧
+      (bs.length < 2 ^ 64 → ∃ sl', parse S c bs = .ok (.msg c sl' true unk cur)
+        ∧ ValEqv S (.msg c sl ow unk cur) (.msg c sl' true unk cur) ∧ dumpVal S (.msg c sl' true unk cur) = .ok bs) := by
+  obtain ⟨bs, hbs⟩ := encodable S _ hm
+  exact ⟨bs, hbs, fun hbl => roundtrip_nested_partial S c d hd sl ow unk cur hm bs hbs hbl⟩
+
 /-! non-vacuity: a class with an int32, an optional string, a two-member oneof and a packed
     repeated sint64; the value below meets every hypothesis (evaluated by `decide`) -/
 def SX : Schema := [{ fields := [{ name := "i", num := 1, ty := .int32 },
@@ -230,3 +253,6 @@ example : (parse SX 0 [8, 249, 255, 255, 255, 255, 255, 255, 255, 255, 1, 18, 0,
     = .ok [8, 249, 255, 255, 255, 255, 255, 255, 255, 255, 1, 18, 0, 34, 0, 42, 3, 1, 172, 2] := by decide
 
 end Bp.C01
+
+#print axioms Bp.C01.encodable
+#print axioms Bp.C01.roundtrip_total_partial
